@@ -333,13 +333,41 @@ func genSpkIPs(rt *rapid.T, cl vw.ClusterSpec) []string {
 }
 
 func genSpkCase(rt *rapid.T) spkCase {
-	c := spkCase{Cluster: genSpkCluster(rt), Disabled: rapid.IntRange(0, 2).Draw(rt, "mlDisabled") == 0, Ignore: rapid.IntRange(0, 3).Draw(rt, "ignore") == 0, LBClass: rapid.IntRange(0, 3).Draw(rt, "lbClass") == 0}
+	c := spkCase{Cluster: genSpkCluster(rt), Disabled: rapid.IntRange(0, 2).Draw(rt, "mlDisabled") == 0, Ignore: rapid.IntRange(0, 2).Draw(rt, "ignore") == 0, LBClass: rapid.IntRange(0, 3).Draw(rt, "lbClass") == 0}
 	cur := c.Cluster
 	for range cur.Nodes {
 		c.Alive = append(c.Alive, rapid.IntRange(0, 4).Draw(rt, "alive") != 0)
 	}
 	nsvc := 0
 	live := 0
+	if rapid.IntRange(0, 7).Draw(rt, "bothProtocols") == 0 {
+		// scenario: one service announced over layer 2 and BGP from this node, then BGP alone is withdrawn (its
+		// advertisement stops selecting the node), then the address changes, then BGP comes back
+		cl := vw.ClusterSpec{Pools: []vw.PoolSpec{{Name: "poolA", Addresses: []string{"10.1.0.0/24", "fc00:1::/120"}}}, Nodes: cur.Nodes, Comms: cur.Comms,
+			L2:    []vw.L2AdvSpec{{Name: "l2both"}},
+			BGP:   []vw.BGPAdvSpec{{Name: "bgpboth", Agg4: -1, Agg6: -1, NodeSel: []vw.Sel{{"a": "x"}}}},
+			Peers: []vw.PeerSpec{{Name: "peer0", MyASN: 64512, ASN: 64512, Address: "192.168.1.1"}}}
+		on, off := cur.Nodes[0], cur.Nodes[0]
+		on.Labels, on.Unavailable, on.Excluded = map[string]string{"a": "x"}, false, false
+		off.Labels, off.Unavailable, off.Excluded = nil, false, false
+		cl.Nodes = append([]vw.NodeSpec{on}, cur.Nodes[1:]...)
+		sv := spkSvc{Spec: vw.SvcSpec{NS: "ns0", Name: fmt.Sprintf("svc%d", nsvc), Ports: []vw.PortSpec{{Proto: "TCP", Port: 80}}, Families: []int{vw.FamilyV4}},
+			IPs: []string{"10.1.0.1"}, Slices: []vw.SliceSpec{{Endpoints: []vw.EndpointSpec{{Addrs: []string{"10.244.7.7"}, Node: spkMe, Ready: 1}}}}}
+		nsvc++
+		live++
+		all := make([]bool, len(cur.Nodes))
+		for i := range all {
+			all[i] = true
+		}
+		moved := spkSvc{IPs: []string{rapid.SampledFrom([]string{"10.1.0.2", "10.1.0.130"}).Draw(rt, "bothMoved")}}
+		onN, offN, onN2 := on, off, on
+		c.Ops = append(c.Ops, spkOp{Kind: "config", Cluster: &cl}, spkOp{Kind: "node", Node: &onN}, spkOp{Kind: "members", Alive: all},
+			spkOp{Kind: "svc-create", New: &sv}, spkOp{Kind: "settle"},
+			spkOp{Kind: "node", Node: &offN}, spkOp{Kind: "settle"},
+			spkOp{Kind: "svc-ips", Svc: 0, New: &moved}, spkOp{Kind: "settle"},
+			spkOp{Kind: "node", Node: &onN2}, spkOp{Kind: "settle"})
+		cur = cl
+	}
 	nops := rapid.IntRange(3, 25).Draw(rt, "nops")
 	for i := 0; i < nops; i++ {
 		op := spkOp{}
@@ -427,13 +455,35 @@ func genSpkCase(rt *rapid.T) spkCase {
 			// scenario: the node's labels flip away and back (a peer / advertisement is de-selected, then selected again)
 			l1 := rapid.SampledFrom([]map[string]string{{"a": "x"}, {"a": "y"}, {"a": "x", "b": "y"}}).Draw(rt, "flipA")
 			l2 := rapid.SampledFrom([]map[string]string{nil, {"a": "y"}, {"a": "x"}, {"b": "x"}}).Draw(rt, "flipB")
-			for _, l := range []map[string]string{l1, l2, l1} {
+			for step, l := range []map[string]string{l1, l2, l1} {
 				n := cur.Nodes[0]
 				n.Labels = l
 				nn := n
 				c.Ops = append(c.Ops, spkOp{Kind: "node", Node: &nn}, spkOp{Kind: "settle"})
 				cur.Nodes = append([]vw.NodeSpec(nil), cur.Nodes...)
 				cur.Nodes[0] = n
+				if step == 1 && rapid.Bool().Draw(rt, "flipChangeAddr") {
+					// while one protocol may be withdrawn alone (its advertisement / peer de-selected): an address change
+					sv := spkSvc{IPs: genSpkIPs(rt, cur)}
+					c.Ops = append(c.Ops, spkOp{Kind: "svc-ips", Svc: rapid.IntRange(0, 3).Draw(rt, "flipSvc"), New: &sv}, spkOp{Kind: "settle"})
+				}
+			}
+			op.Kind = "settle"
+		case k == 21:
+			// scenario: a node that carries the exclude label (which only matters without the ignore flag) loses its
+			// network and gets it back, nothing else changing in those updates
+			j := rapid.IntRange(0, len(cur.Nodes)-1).Draw(rt, "flapNode")
+			base := cur.Nodes[j]
+			if rapid.Bool().Draw(rt, "flapExcluded") {
+				base.Excluded, base.ExclValue = true, rapid.SampledFrom([]string{"", "true"}).Draw(rt, "flapExclValue")
+			}
+			for _, un := range []bool{false, true, false} {
+				n := base
+				n.Unavailable = un
+				nn := n
+				c.Ops = append(c.Ops, spkOp{Kind: "node", Node: &nn}, spkOp{Kind: "settle"})
+				cur.Nodes = append([]vw.NodeSpec(nil), cur.Nodes...)
+				cur.Nodes[j] = n
 			}
 			op.Kind = "settle"
 		case k == 18:
